@@ -186,7 +186,7 @@ func main() {
 			os.Exit(3)
 		}
 		ms := time.Since(start).Milliseconds()
-		g1 := settle(g0, 2*time.Second)
+		g1 := settle(g0, 5*time.Second)
 		e := 0
 		if eq {
 			e = 1
